@@ -1,6 +1,8 @@
 package client
 
 import (
+	"sort"
+
 	"github.com/aliyun/alibaba-cloud-sdk-go/sdk/requests"
 	"github.com/aliyun/alibaba-cloud-sdk-go/services/ecs"
 	"github.com/aliyun/alibaba-cloud-sdk-go/services/eflo"
@@ -138,6 +140,9 @@ func (c *CreateNetworkInterfaceOptions) Finish(idempotentKeyGen IdempotentKeyGen
 			Value: v,
 		})
 	}
+	// the request is hashed to find the idempotency token of a failed attempt again:
+	// the tag list must not depend on map iteration order
+	sort.Slice(tags, func(i, j int) bool { return tags[i].Key < tags[j].Key })
 	req.Tag = &tags
 
 	argsHash := md5Hash(req)
